@@ -21,7 +21,7 @@ PLAN = [
     ("C09_msm_cell_sat0_accepted", "C10", "quick", "err_gps_cell_sat_range"),
     ("revert_msm_encode_65_cells", "C10", "quick", "err_gps_cells65"),
     ("revert_msm_decode_cellmask_gt64", "C02", "quick", "msg1074_9x8"),
-    ("C15_desc_string_len_clamped", "C15", "quick", "msg1033_over0_32"),
+    ("C15_desc_string_len_clamped", "C15", "quick", "msg1007_over0_32"),
     ("C20_latin1_ff_mapped_to_a4", "C20", "quick", "desc_4"),
     ("revert_serde_latin1_truncation", "C20", "quick", "desc_4"),
     ("C12_has_run_set_only_on_success", "C12", "quick", "inv_fail"),
